@@ -58,7 +58,7 @@ class Panoptica_Aggregator:
         """
         self.__panoptica_evaluator = panoptica_evaluator
         self.__class_group_names = panoptica_evaluator.segmentation_class_groups_names
-        self.__evaluation_metrics = panoptica_evaluator.resulting_metric_keys
+        self.__evaluation_metrics = list(panoptica_evaluator.resulting_metric_keys)
 
         if log_times:
             self.__evaluation_metrics.append(COMPUTATION_TIME_KEY)
